@@ -16,8 +16,9 @@ EVIDENCE_DIR = os.path.join(env.VERIF, "evidence")
 MAX_REPORT = 3
 
 PROP_KINDS = {
-    "C01": ("STORE", "LOAD", "PREDICT", "PREDICT_GRID"),
-    "C02": ("MAKE_DATA", "FIT", "PREDICT", "SCRIBBLE_DATA", "SCRIBBLE_PRED", "INSPECT", "STORE", "ABORT_SWEEP", "FIT_ABORT_SWEEP"),
+    "C01": ("STORE", "LOAD", "PREDICT", "PREDICT_GRID", "SERIAL_ABORT_SWEEP"),
+    "C02": ("MAKE_DATA", "FIT", "PREDICT", "SCRIBBLE_DATA", "SCRIBBLE_PRED", "INSPECT", "STORE", "ABORT_SWEEP", "FIT_ABORT_SWEEP",
+            "SERIAL_ABORT_SWEEP"),
     "C03": ("MAKE_DATA", "FIT", "PREDICT"),
     "C04": ("FIT", "PREDICT", "LOAD"),
     "C05": ("PREDICT_PAIR",),
